@@ -119,6 +119,11 @@ impl Completions {
         if let Err(err) = shared.enter(libc::c_uint::MAX, flags, Some(Duration::from_secs(1))) {
             log::warn!("error flushing submissions: {err}");
         }
+        if shared.kernel_thread {
+            // The call above only wakes the kernel thread, give it the time to
+            // pick up what is queued before we cancel everything.
+            shared.wait_for_kernel_thread(Duration::from_secs(1));
+        }
 
         // Hopefully at this point the clean up operations have been completed,
         // but we're not guaranteed that. Cancel any remaining operations, as
